@@ -13,7 +13,7 @@ EVENTS = ("submit", "run_ok", "run_fail", "cancel", "advance", "shutdown")
 NS = "more_executors_"
 
 
-def make(kind, base, st):
+def make(kind, base, st, tmo=3.0):
     if kind == "retry":
         return Executors.with_retry(base, max_attempts=2, sleep=1.0, exception_base=E, name="n")
     if kind == "poll":
@@ -29,7 +29,7 @@ def make(kind, base, st):
     if kind == "throttle":
         return Executors.with_throttle(base, 1, name="n")
     if kind == "timeout":
-        return Executors.with_timeout(base, 3.0, name="n")
+        return Executors.with_timeout(base, tmo, name="n")
     if kind == "map":
         return Executors.with_map(base, lambda v: v, name="n")
     if kind == "flat_map":
@@ -70,6 +70,8 @@ def body(mc, p):
             if any(not f.done() for f in fs):
                 choices += ["cancel", "advance"]
             choices.append("shutdown")
+        else:
+            choices.append("late_submit")
         ev = choices[mc.choose(len(choices))]
         if ev == "stop":
             break
@@ -80,6 +82,12 @@ def body(mc, p):
             else:
                 fs.append(ex.submit(lambda: "v"))
             model["created"] += 1
+        elif ev == "late_submit":
+            try:
+                ex.submit(lambda: "late")
+                mc.emit("late.accepted")
+            except RuntimeError:
+                pass
         elif ev in ("run_ok", "run_fail"):
             it = queued[0]
             if ev == "run_ok":
@@ -188,12 +196,15 @@ oracle("c20.hist")(check)
 def _cparams():
     out = []
     for kind in ("retry", "throttle", "poll", "timeout", "map", "cancel_on_shutdown"):
-        for cancel_at in (None, 0.0, 1.0):
+        for cancel_at in ((None, 0.0, 1.0, 3.0) if kind == "timeout" else (None, 0.0, 1.0)):
             for two_shutdowns in (False, True):
                 for fail in (False, True):
                     if fail and kind != "retry":
                         continue
                     out.append(dict(kind=kind, cancel_at=cancel_at, two_shutdowns=two_shutdowns, fail=fail))
+                    if kind == "timeout" and cancel_at == 0.0:
+                        # zero timeout: the user's cancel and the deadline fall into the same pass
+                        out.append(dict(kind=kind, cancel_at=cancel_at, two_shutdowns=two_shutdowns, fail=fail, tmo=0.0))
     return out
 
 
@@ -201,9 +212,10 @@ def cbody(mc, p):
     prom.reset()
     kind = p["kind"]
     st = dict(polls=0, poll_errors=0)
-    base = ManualExecutor(mc, mode="manual")
-    ex = make(kind, base, st)
+    base = ManualExecutor(mc, mode="hold" if kind == "timeout" else "manual")
+    ex = make(kind, base, st, tmo=p.get("tmo", 3.0))
     calls = [0]
+    user_cancelled = [0]
 
     def fn():
         calls[0] += 1
@@ -212,12 +224,24 @@ def cbody(mc, p):
             raise E("first")
         return "v"
     fs = [ex.submit(fn), ex.submit(lambda: "w")]
-    mc.spawn(base.worker_loop, "worker", client=False)
+    if kind == "timeout":
+        for lab, f in (("0", fs[0]), ("1", fs[1])):
+            def wrap(lab=lab, f=f, orig=f.cancel):
+                def cancel():
+                    was_done = f.done()
+                    r = orig()
+                    mc.emit("tcancel", f=lab, was_done=was_done, ret=r)
+                    return r
+                f.cancel = cancel
+            wrap()
+    if kind != "timeout":
+        mc.spawn(base.worker_loop, "worker", client=False)      # timeout cells: nothing ever runs
     if p["cancel_at"] is not None:
         def can():
             if p["cancel_at"]:
                 mc.sleep(p["cancel_at"])
-            fs[0].cancel()
+            if fs[0].cancel():
+                user_cancelled[0] += 1
         mc.spawn(can, "can")
     mc.sleep(8)
     pending = sum(1 for f in fs if not f.done())
@@ -241,7 +265,8 @@ def cbody(mc, p):
                pending=sum(1 for f in fs if not f.done()),
                retry_total=val("retry_total", executor="n"), resubmits=max(0, nsub - 2),
                future_cancel=val("future_cancel", type=kind, executor="n"), cancelled=sum(1 for f in fs if f.cancelled()),
-               future_total=val("future_total", type=kind, executor="n"), shutdowns=done_sh[0])
+               future_total=val("future_total", type=kind, executor="n"), shutdowns=done_sh[0],
+               timeout=val("timeout", executor="n"), user_cancelled=user_cancelled[0])
 
 
 def ccheck(x):
@@ -265,6 +290,10 @@ def ccheck(x):
                       detail="gauge %r pending %r" % (e["future_inprogress"], e["pending"]))
         x.require(e["retry_queue"] == e["jobs"], "retry-queue-gauge-wrong", detail="gauge %r jobs %r" % (e["retry_queue"], e["jobs"]))
         x.require(e["throttle_queue"] == e["tq"], "throttle-queue-gauge-wrong", detail="gauge %r queued %r" % (e["throttle_queue"], e["tq"]))
+    if kind == "timeout":
+        by_timeout = sum(1 for e in x.events("tcancel") if e["th"].startswith("TimeoutExecutor") and not e["was_done"] and e["ret"])
+        x.require(o["timeout"] == by_timeout, "timeout-counter-wrong",
+                  detail="counter %r, successful timeout cancels of pending futures %r" % (o["timeout"], by_timeout))
     if kind == "retry":
         x.require(o["retry_total"] == o["resubmits"], "retry-total-wrong",
                   detail="counter %r, re-submissions that reached the delegate %r" % (o["retry_total"], o["resubmits"]))
@@ -275,6 +304,64 @@ oracle("c20.conc")(ccheck)
 harness("c20.conc.lines", prop="C20", traced=("retry", "throttle", "helpers"), horizon=60,
         params=[q for q in _cparams() if q["kind"] in ("retry", "throttle")])(cbody)
 oracle("c20.conc.lines")(ccheck)
+
+
+# ------------------------------------------------------------------ timeout thread busy in a slow cancel
+def _sparams():
+    return [dict(user_cancel_at=t) for t in (None, 0.5, 1.5, 2.5)]
+
+
+def sbody(mc, p):
+    prom.reset()
+    base = ManualExecutor(mc, mode="manual")
+
+    def poll_fn(ds):
+        return None                      # never resolves: futures stay in the polling stage
+
+    def cancel_fn(result):
+        mc.sleep(3.0)                    # a cancel that takes (virtual) time, on the caller's thread
+        return True
+    ex = Executors.with_timeout(Executors.with_poll(base, poll_fn, cancel_fn, default_interval=1.0, name="p"), 100.0, name="n")
+    mc.spawn(base.worker_loop, "worker", client=False)
+    fa = ex.submit_timeout(1.0, lambda: "a")
+    fb = ex.submit_timeout(2.0, lambda: "b")
+    for lab, f in (("a", fa), ("b", fb)):
+        def wrap(lab=lab, f=f, orig=f.cancel):
+            def cancel():
+                was_done = f.done()
+                r = orig()
+                mc.emit("tcancel", f=lab, was_done=was_done, ret=r)
+                return r
+            f.cancel = cancel
+        wrap()
+    user = [0]
+    if p["user_cancel_at"] is not None:
+        def can():
+            mc.sleep(p["user_cancel_at"])
+            if fb.cancel():
+                user[0] += 1
+        mc.spawn(can, "can")
+    mc.sleep(20)
+    mc.observe(timeout=val("timeout", executor="n"), a=snapshot(fa), b=snapshot(fb), user=user[0],
+               negatives=tuple(sorted("%s%r" % k for k, v in prom.MINIMUM.items() if v < 0)))
+    ex.shutdown(False)
+    base.down = True
+
+
+def scheck(x):
+    if not x.require(x.end == "done" and "timeout" in x.obs, "bad-ending", end=x.end):
+        return
+    o = x.obs
+    # a timeout that succeeded = a cancel() by the timeout thread, issued while the future was not
+    # done, that returned True (a user cancel still in progress at that moment does not undo it)
+    by_timeout = sum(1 for e in x.events("tcancel") if e["th"].startswith("TimeoutExecutor") and not e["was_done"] and e["ret"])
+    x.require(o["timeout"] == by_timeout, "timeout-counter-wrong",
+              detail="counter %r, successful timeout cancels of pending futures %r (a=%r b=%r user=%r)" % (o["timeout"], by_timeout, o["a"], o["b"], o["user"]))
+    x.require(not o["negatives"], "gauge-went-negative", kind="timeout", series=";".join(o["negatives"])[:120])
+
+
+harness("c20.slowcancel", prop="C20", traced=(), horizon=60, params=_sparams())(sbody)
+oracle("c20.slowcancel")(scheck)
 
 
 # ------------------------------------------------------------------ combinators: everything returns to zero
@@ -337,7 +424,7 @@ oracle("c20.comb")(kcheck)
 
 PLAN = {
     "quick": [dict(harness="c20.hist", bound=0, select=lambda p: p["depth"] == 5), dict(harness="c20.conc", bound=1),
-              dict(harness="c20.conc.lines", bound=1), dict(harness="c20.comb", bound=0)],
+              dict(harness="c20.conc.lines", bound=1), dict(harness="c20.comb", bound=0), dict(harness="c20.slowcancel", bound=1)],
     "thorough": [dict(harness="c20.hist", bound=0, select=lambda p: p["depth"] == 6), dict(harness="c20.conc", bound=2),
-                 dict(harness="c20.conc.lines", bound=2), dict(harness="c20.comb", bound=0)],
+                 dict(harness="c20.conc.lines", bound=2), dict(harness="c20.comb", bound=0), dict(harness="c20.slowcancel", bound=2)],
 }
